@@ -190,4 +190,19 @@ CHECKS = {
             dict(test="TestC11Product", unit="product", kind="enum", shards=(16, 16)),
         ],
     ),
+    "C17": dict(
+        level="exploration",
+        technique="model-based property testing (rapid): synthesised raw CD images x sector reads vs. the user-data slices computed by the harness",
+        rule="1..3 sparse raw images per case with sector size from {2048,2328,2336,2340,2352,2368,2448}, an ISO 9660 (\\x01CD001) or PLAYSTATION signature in the 16th sector "
+             "or none, sizes at 2 MiB+-2, 848 MiB+-2, below, above and inside the detection window; PRF data is laid down wherever the case reads (for the true, the default and "
+             "the 2048 stride, and where swapped arguments would land) so any offset mix-up yields different bytes; sessions re-open images of different sector size on one "
+             "connection, CLOSEFILE, and issue READ_CD_2048 with (start, count) incl. start != count, count 0, ranges crossing EOF; reply must be the concatenation of "
+             "raw[24 + k*s, +2048) for k = start..start+count-1 with s detected by the harness's own reading of the rule (2352 when undetectable or outside the window), an "
+             "EOF-crossing read a correct prefix then end of connection. non-trivial = start != count and s not in {2048, 2352} with a signature inside the window; distinct by "
+             "(sector size, signature, image size, start, count)",
+        assumptions=[INPROC],
+        units=[
+            dict(test="TestC17CD", unit="cd", kind="rapid", checks=(1600, 40000), shards=(8, 16)),
+        ],
+    ),
 }
